@@ -25,9 +25,27 @@ from contracts.apply import ready, extends, trivial_z as trivial  # noqa: E402
 persistent = z3.Function("persistent_payload", smt.Ref, smt.BoolS)
 
 
+def _persistent_axioms(ex):
+    """Definition (iteration engine): a MaterializedRowIterable (RowSequence, RowMapping) holds its rows in memory -- it is a
+    persistent payload.  What the hooks of other engines return is persistent exactly when they were asked to materialize
+    (their assumed contracts below)."""
+    o = z3.Const("o", smt.Ref)
+    tids = [ex.types.cid(ex.repo.cls(n)) for n in ("RowSequence", "RowMapping")]
+    return [z3.ForAll([o], z3.Implies(z3.Or(*[smt.typ(o) == t for t in tids]), persistent(o)), patterns=[persistent(o)])]
+
+
 def register(reg):
     reg.load("iteration")
+    reg.load("rowiter")
+    if _persistent_axioms not in reg.global_axioms:
+        reg.global_axioms.append(_persistent_axioms)
     P = ("C07", "C10")
+    # spec lemma used by the heap reasoning (axiom in contracts/apply.py:extends_axioms): its induction step and its decreases
+    # clause are lemma obligations of both checks
+    from contracts.apply import lemma_ready_monotone, lemma_ready_monotone_descends
+    for pid_ in P:
+        reg.lemmas[f"{pid_}/lemma-readiness-is-monotone-in-the-payload-heap/induction-step"] = lemma_ready_monotone
+        reg.lemmas[f"{pid_}/lemma-readiness-is-monotone-in-the-payload-heap/children-are-strictly-lower"] = lemma_ready_monotone_descends
     TRel = TRefT(reg_cls(reg, "BaseRelation"))
     TPay = TRefT(None, True)
 
@@ -46,12 +64,17 @@ def register(reg):
     k.ens("payload-holds-the-targets-rows", lambda c: B(z3.And(c.result.z != smt.NONE, V.content(c.result.z) == V.rows(c.target.z), persistent(c.result.z))))
 
     # ---- engine payload factories for trivial relations
-    k = reg.contract("_engine:Engine.get_join_identity_payload", virtual=True, assumed=True, properties=P, result_td=TPay,
+    # session 4: no longer assumed -- the iteration engine's implementations are verified from their bodies (RowMapping construction,
+    # contracts/rowiter.py); the SQL implementations build SQLAlchemy objects (emission, outside reach) and the base-class defaults
+    # return None (engines without payload factories are outside the property): both stay assumed and are listed as such
+    k = reg.contract("_engine:Engine.get_join_identity_payload", virtual=True, assumed=False, properties=P, result_td=TPay,
                      note="engine hook: a payload holding the single empty row (sql/_engine.py:188, iteration/_engine.py:113; the base-class default "
                           "returns None and is outside the property's engines)")
+    k.unverified_impls = ("sql._engine:", "_engine:")
     k.ens("identity-payload", lambda c: B(z3.And(c.result.z != smt.NONE, V.content(c.result.z) == V.RUNIT, persistent(c.result.z))))
-    k = reg.contract("_engine:Engine.get_doomed_payload", virtual=True, assumed=True, properties=P, result_td=TPay,
+    k = reg.contract("_engine:Engine.get_doomed_payload", virtual=True, assumed=False, properties=P, result_td=TPay,
                      note="engine hook: a payload holding no rows over the given columns (sql/_engine.py:194, iteration/_engine.py:117; base default None is out of scope)")
+    k.unverified_impls = ("sql._engine:", "_engine:")
     k.ens("doomed-payload", lambda c: B(z3.And(c.result.z != smt.NONE, V.content(c.result.z) == V.REMPTY(c.columns.z), persistent(c.result.z))))
 
     # SQL Select markers re-conform their target (subject of C17): assumed here
